@@ -79,7 +79,7 @@ func callOf(e ast.Expr) (*ast.CallExpr, string) {
 
 type facts struct {
 	readRequiresConsistent, writeIsCAS, casPairIsReadPair, casOkChecked, errorsReturned bool
-	serviceDelegates, startCancelledOnError, wrapsAtMax                                 bool
+	serviceDelegates, startCancelledOnError, wrapsAtMax, wrapEvaluated                  bool
 }
 
 func consulFacts(repo string, ft *facts) error {
@@ -349,14 +349,15 @@ func consumerFacts(repo string, ft *facts) error {
 	return nil
 }
 
-// evalWrap runs the LINKED GetNextUInt32 once with the counter at 2^32-1.
+// evalWrap runs the LINKED GetNextUInt32 once with the counter at 2^32-1 (extra `w` steps let a
+// variant that sends more requests run to completion; they are no-ops otherwise).
 func evalWrap(ft *facts) error {
 	g, err := newRig()
 	if err != nil {
 		return err
 	}
 	defer g.close()
-	obs, err := g.runCase(`(2 (9 ("4294967295" 9)) ((r 1) (w 1)))`)
+	obs, err := g.runCase(`(2 (9 ("4294967295" 9)) ((r 1) (w 1) (w 1) (w 1) (w 1) (w 1)))`)
 	if err != nil {
 		return err
 	}
@@ -367,9 +368,9 @@ func evalWrap(ft *facts) error {
 	st := o.At(0).At(1).At(1)
 	switch {
 	case st.IsList && st.At(0).Str() == "ok" && st.At(1).Str() == "0":
-		ft.wrapsAtMax = true
+		ft.wrapsAtMax, ft.wrapEvaluated = true, true
 	case st.IsList && st.At(0).Str() == "err":
-		ft.wrapsAtMax = false
+		ft.wrapsAtMax, ft.wrapEvaluated = false, true
 	default:
 		return fmt.Errorf("unexpected answer at 2^32-1: %s", obs)
 	}
@@ -383,18 +384,24 @@ func lb(b bool) string {
 	return "false"
 }
 
+// genFacts never fails: a fact that cannot be established is reported as false (with the reason
+// in a comment), which breaks the C07_*_is_code theorem that needs it — and only C07.
 func genFacts(repo string) (string, error) {
 	var ft facts
+	var problems []string
 	if err := consulFacts(repo, &ft); err != nil {
-		return "", err
+		problems = append(problems, "consulsource.go: "+err.Error())
 	}
 	if err := consumerFacts(repo, &ft); err != nil {
-		return "", err
+		problems = append(problems, "consumers: "+err.Error())
 	}
 	if err := evalWrap(&ft); err != nil {
-		return "", err
+		problems = append(problems, "evaluation at 2^32-1: "+err.Error())
 	}
 	var b strings.Builder
+	for _, p := range problems {
+		fmt.Fprintf(&b, "-- could not establish: %s\n", strings.NewReplacer("\n", " ", "\r", " ").Replace(p))
+	}
 	b.WriteString("namespace Gen.C07\n\n")
 	w := func(doc, name string, v bool) {
 		fmt.Fprintf(&b, "/-- %s -/\ndef %s : Bool := %s\n\n", doc, name, lb(v))
@@ -407,6 +414,7 @@ func genFacts(repo string) (string, error) {
 	w("go/ast: local.Service.NewRunNumber returns cSrc.GetNextUInt32(…) when the source is a *cfgbackend.ConsulSource", "serviceDelegates", ft.serviceDelegates)
 	w("go/ast: every `x, err := ….NewRunNumber()` in core/environment/environment.go is immediately followed by `if err != nil { e.Cancel(err); return }`", "startCancelledOnError", ft.startCancelledOnError)
 	w("EVALUATED on the linked code: with the counter at 4294967295 GetNextUInt32 returns (0, nil) and writes \"0\"", "wrapsAtMax", ft.wrapsAtMax)
+	w("the evaluation at 2^32-1 ran to completion and gave one of the two expected answers ((0, nil) or an error)", "wrapEvaluated", ft.wrapEvaluated)
 	b.WriteString("end Gen.C07\n")
 	return b.String(), nil
 }
